@@ -20,20 +20,21 @@ const modPath = "github.com/elastic/go-txfile"
 
 // Program is the loaded, type-checked and SSA-built repository.
 type Program struct {
-	Dir    string
-	Config string // e.g. linux/amd64
-	Pkgs   []*packages.Package
-	Prog   *ssa.Program
-	Fset   *token.FileSet
-	Tx     *ssa.Package // txfile
-	PQ     *ssa.Package // pq
-	byPath map[string]*ssa.Package
+	Dir      string
+	Config   string // e.g. linux/amd64
+	Pkgs     []*packages.Package
+	Prog     *ssa.Program
+	Fset     *token.FileSet
+	Tx       *ssa.Package // txfile
+	PQ       *ssa.Package // pq
+	pqOwners map[*types.Var]string
+	byPath   map[string]*ssa.Package
 
 	cgCHA *callgraph.Graph
 	cgVTA *callgraph.Graph
 
-	srcFuncs []*ssa.Function
-	effects  *Effects
+	srcFuncs    []*ssa.Function
+	effects     *Effects
 	fieldOwners map[*types.Var]string
 	cheapMemo   map[*ssa.Function]int
 	sharedTouch map[*ssa.Function]bool
